@@ -25,13 +25,24 @@
       responses, success implies that after the accepted publication the source
       path was unlinked, successfully or finding it already gone
       ([C11_source_consumed]).
-    Histories over mixed plain / sharded / stacked handles with several
-    independent handles, and the attribution of every disappearance to a Second
+    - whole histories: ANY sequence of set / put / set_temp_file /
+      put_temp_file / get / touch calls of the public API on a plain write cache, each run from the state its predecessor
+      left and each under its own oracle (any fault, clock, trigger draw - hence
+      any maintenance, and any number of handles, whose only private state is the
+      trigger countdown the oracle replaces): every hit is a descriptor on an
+      inode ALLOWED for that key - after a successful set exactly the set's
+      source, a put or a failed set adding its own source - never a value written
+      for another key, nor one that a later successful set replaced
+      ([C11_history_refines_map]; directory level: [C11_directory_history]); and
+      no call of the history writes file contents, so that inode holds what the
+      source held ([C11_history_keeps_data]).
+    Histories over sharded and stacked handles, the "first put since the key was
+    last absent" precision, and the attribution of every disappearance to a Second
     Chance eviction of an over-capacity directory, are decided by the
     differential history runs against the map oracle (vlib/c11.py). *)
 From Coq Require Import List NArith ZArith String Bool Lia.
 From Kismet Require Import Pure.Hash FS.Fs FS.Prog Spec.Wp Ops.Ops Conc.Effect Proofs.HashProofs Proofs.NeverMasked
-  Proofs.KvFacts Seq.Plain Seq.Steps Seq.Bind Seq.Sane Proofs.KvSeq Proofs.KvShard Proofs.KvTemp Proofs.KvCap.
+  Proofs.KvFacts Seq.Plain Seq.Steps Seq.Bind Seq.Sane Proofs.KvSeq Proofs.KvShard Proofs.KvTemp Proofs.KvCap Proofs.KvHist.
 Import ListNotations.
 
 Theorem C11_sorted_pair : forall hash sec n, let '(a, b) := shard_ids hash sec n in a <> b.
@@ -274,6 +285,89 @@ Example C11_example :
    name_of f ["v"%string] = Some 4%nat /\ name_of f ["w"; "a"]%string = Some 2%nat) /\
   go true = (Ok tt, Some 4%nat, Some 3%nat, None, Some 4%nat) /\
   go false = (Ok tt, Some 2%nat, Some 3%nat, None, Some 2%nat).
+Proof. vm_compute. repeat split; reflexivity. Qed.
+
+(** Whole histories of the public API on a plain write cache (no read-only
+    caches, no checker).  [shist] spells out, call by call, what is guaranteed:
+    for a get, every hit's inode is in the key's allowed list; for a set, success
+    means the source existed and the key is now bound to its inode, and the
+    allowed list becomes exactly that inode; a put (or a failed set) adds its
+    source to the list. *)
+Theorem C11_history_refines_map : forall cfg dir cap ops os w al,
+  s_writer cfg = Some (FPlain dir cap) -> s_readers cfg = [] -> s_checker cfg = None -> plainp dir = true ->
+  Forall (sop_wf dir) ops -> names_plain (w_fs w) -> HInv (plain_cdir dir cap) al (w_fs w) ->
+  shist cfg dir ops os w al.
+Proof. intros cfg dir cap ops os w al Hw Hr Hc Hb. exact (stack_history_refines_map cfg dir cap Hw Hr Hc Hb ops os w al). Qed.
+
+(** What [shist] says, on a short history that crosses two keys and both write
+    APIs (a path-based set, then a put_temp_file of another key, then a lookup): *)
+Theorem C11_history_unfolded : forall cfg dir ka kb va vb fdb o1 o2 o3 w al,
+  shist cfg dir [SWrite WSet ka va; SWrite (WTempPut fdb) kb vb; SGet ka] [o1; o2; o3] w al =
+  (let src := name_of (w_fs w) va in
+   let '(r, w1, _, _) := run (cache_set cfg ka va) w o1 in
+   (true = true -> is_ok r = true -> src <> None /\ name_of (w_fs w1) (dir ++ [k_name ka]) = src) /\
+   let al1 := upd al (k_name ka) (if (true && is_ok r)%bool then olist src else olist src ++ al (k_name ka)) in
+   let src2 := name_of (w_fs w1) vb in
+   let '(r2, w2, _, _) := run (cache_write_temp false cfg kb fdb vb) w1 o2 in
+   (false = true -> is_ok r2 = true -> src2 <> None /\ name_of (w_fs w2) (dir ++ [k_name kb]) = src2) /\
+   let al2 := upd al1 (k_name kb) (if (false && is_ok r2)%bool then olist src2 else olist src2 ++ al1 (k_name kb)) in
+   let '(r3, w3, _, _) := run (cache_get cfg ka) w2 o3 in
+   (forall fd, r3 = Ok (Some fd) -> exists i, fdino (w_fs w3) fd = Some i /\ In i (al2 (k_name ka))) /\ True).
+Proof. reflexivity. Qed.
+
+Theorem C11_history_keeps_data : forall cfg ops os w i D,
+  s_checker cfg = None ->
+  data (w_fs w) i = Some D -> i < next_ino (w_fs w) ->
+  data (w_fs (srun cfg ops os w)) i = Some D.
+Proof. intros cfg ops os w i D Hc HD Hi. exact (proj1 (stack_history_keeps_data cfg Hc ops os w i D HD Hi)). Qed.
+
+(** The same one level down, on a cache directory (the plain cache's own API). *)
+Theorem C11_directory_history : forall d ops os w al,
+  plainp (cd_base d) = true -> Forall (hop_wf d) ops -> names_plain (w_fs w) -> HInv d al (w_fs w) -> hist d ops os w al.
+Proof. intros d ops os w al Hb. exact (history_refines_map d Hb ops os w al). Qed.
+
+(** A corollary crossing three calls and two keys: after a successful set of [a],
+    whatever a later write to another key does (its maintenance included), a
+    lookup of [a] hits the value set for [a] or misses. *)
+Theorem C11_set_other_get : forall d a b va vb w o1 o2 o3,
+  plainp (cd_base d) = true ->
+  a <> b -> hop_wf d (HSet a va) -> hop_wf d (HSet b vb) -> names_plain (w_fs w) ->
+  let '(r1, w1, _, _) := run (cd_set d a va) w o1 in
+  is_ok r1 = true ->
+  let '(r2, w2, _, _) := run (cd_set d b vb) w1 o2 in
+  let '(r3, w3, _, _) := run (cd_get d a) w2 o3 in
+  forall fd, r3 = Ok (Some fd) -> fdino (w_fs w3) fd = name_of (w_fs w) va.
+Proof. intros d a b va vb w o1 o2 o3 Hb. exact (set_other_get d Hb a b va vb w o1 o2 o3). Qed.
+
+(** Non-vacuity of the history theorem: the directory of [C11_example] plus a
+    second value file "u" (inode 5); the history
+    [set a <- v; put b <- u; touch a; get a; get b].  Its premises hold, every
+    call succeeds, and the two lookups return inode 4 (the set's source) and
+    inode 3 (b's old entry, which the put left alone). *)
+Example C11_history_example :
+  let mk (f : fs) (p : path) (c : N) :=
+    let '(f1, i) := alloc_inode f (mkInode false [c] 292 100%Z 50%Z 1 true) in
+    set_names f1 ((p, i) :: names f1) in
+  let '(f0, d) := alloc_inode empty_fs (mkInode true [] 493 0%Z 0%Z 2 true) in
+  let f0 := set_names f0 ((["w"%string], d) :: names f0) in
+  let f := mk (mk (mk (mk f0 ["w"; "a"]%string 65%N) ["w"; "b"]%string 67%N) ["v"%string] 66%N) ["u"%string] 68%N in
+  let cfg := mkStack 0 (Some (FPlain ["w"%string] 300)) [] None false ["systmp"%string] in
+  let o := mkOracle [1000; 1001; 1002]%Z [18446744073709551615%N] [] [] [] None 0 1%Z Relatime in
+  let ka := mkKey "a"%string 1 2 in let kb := mkKey "b"%string 3 4 in
+  let ops := [SWrite WSet ka ["v"%string]; SWrite WPut kb ["u"%string]; STouch ka; SGet ka; SGet kb] in
+  let w := mkWorld f 0 [] in
+  let w3 := srun cfg (firstn 3 ops) [o; o; o] w in
+  let '(ra, wa, _, _) := run (cache_get cfg ka) w3 o in
+  let '(rb, wb, _, _) := run (cache_get cfg kb) wa o in
+  (forallb (fun pi => plainp (fst pi)) (names f) = true /\
+   forallb (fun op => match op with
+                      | SWrite _ k v => (valid_name (k_name k) && plainp v && negb (path_eqb v (["w"%string] ++ [k_name k])))%bool
+                      | SGet k | STouch k => valid_name (k_name k) end) ops = true /\
+   name_of f ["v"%string] = Some 4%nat /\ name_of f ["u"%string] = Some 5%nat /\
+   name_of f ["w"; "a"]%string = Some 2%nat /\ name_of f ["w"; "b"]%string = Some 3%nat) /\
+  match ra with Ok (Some fd) => fdino (w_fs wa) fd | _ => None end = Some 4%nat /\
+  match rb with Ok (Some fd) => fdino (w_fs wb) fd | _ => None end = Some 3%nat /\
+  name_of (w_fs wb) ["v"%string] = None /\ name_of (w_fs wb) ["u"%string] = None.
 Proof. vm_compute. repeat split; reflexivity. Qed.
 
 (** Non-vacuity, sharded: two shards; the key's copy (inode 4, old value) lives in
